@@ -67,7 +67,7 @@ Q(ifs, at, tm, il, c, r, d) ==
 MCQueries ==
   CASE MCSize = "quick" ->
          { Q(ifs, at, tm, tm, c, r, d) : ifs \in {{"e0"}, {"e0", "e1"}}, at \in AttrSelsQ, tm \in BOOLEAN,
-                                         c \in CondsQ, r \in RangesQ, d \in {"none", "in", "bi"} }
+                                         c \in CondsQ, r \in RangesQ, d \in {"none", "bi"} }
     [] MCSize = "thorough" ->
          { x \in { Q(ifs, at, tm, tm, c, r, d) : ifs \in {{"e0"}, {"e0", "e1"}}, at \in AttrSelsT,
                                           tm \in BOOLEAN, c \in CondsT, r \in Ranges,
